@@ -68,7 +68,9 @@ Record h5gen := {
   g_zero : list (string * string * string * bool);
   g_precision : list (string * string * string * bool); g_merge : list (string * bool);
   g_strings : list (string * bool); g_skel : skeleton; g_opt : list otable;
-  g_popsel : list (bool * string * string * bool * bool) }.
+  g_popsel : list (bool * string * string * bool * bool);
+  g_conn_lists : list (string * list string); g_mixed : list (string * string * string * nat * bool * bool);
+  g_frame : list (string * string * bool) }.
 
 (* ------------------------------------------------------------------ small boolean equalities *)
 Definition cst_eqb (a b : cst) : bool :=
@@ -806,5 +808,33 @@ Definition failing_popsel (g : h5gen) : list (bool * string * string) :=
   map (fun x => let '(h, t, sc, _, _) := x in (h, t, sc))
       (filter (fun x => let '(has, _, _, written, size_ok) := x in negb (Bool.eqb written has && (size_ok || negb has))) (g_popsel g)).
 Definition select_ok (g : h5gen) : bool := forallb (selprobe_ok g) (g_select g) && (select_covers g && popsel_ok g).
+(* negative clause: connections with different synapses / components are refused wherever the deviating one sits: in EVERY
+   connection member list of the class (the lists come from the member specifications of the class, not from the probe), at the
+   first, a middle and the last position, alone and next to the other lists *)
+Definition mixed_fields (kind : string) : list string :=
+  if String.eqb kind "electrical" then ["synapse"] else ["pre_component"; "post_component"].
+Definition mixed_ok (g : h5gen) : bool :=
+  forallb (fun x => snd x) (g_mixed g)
+  && forallb (fun kind => match assoc kind (g_conn_lists g) with
+       | Some lists => Nat.eqb (length lists) 3 &&
+           forallb (fun l => forallb (fun fld => forallb (fun pos => forallb (fun across =>
+             existsb (fun x => let '(k, l', f, p, a, _) := x in
+                               String.eqb k kind && String.eqb l' l && String.eqb f fld && Nat.eqb p pos && Bool.eqb a across) (g_mixed g))
+             [false; true]) [0; 1; 2]) (mixed_fields kind)) lists
+       | None => false end) ["electrical"; "continuous"].
+Definition failing_mixed (g : h5gen) : list (string * string * string * nat * bool) :=
+  map (fun x => fst x) (filter (fun x => negb (snd x)) (g_mixed g)).
+
+(* frame clause: the accessors and exportHdf5 write nothing on the objects, and an exported table follows an edit made after an
+   earlier export (nothing is remembered between two uses) *)
+Definition frame_ok (g : h5gen) : bool :=
+  forallb (fun x => snd x) (g_frame g)
+  && forallb (fun v => existsb (fun x => String.eqb (fst (fst x)) v && String.eqb (snd (fst x)) "export-follows-edit") (g_frame g)
+                       && existsb (fun x => String.eqb (fst (fst x)) v && String.eqb (snd (fst x)) "pure:__str__") (g_frame g))
+       ["Connection"; "ConnectionWD"; "ElectricalConnection"; "ElectricalConnectionInstance"; "ElectricalConnectionInstanceW";
+        "ContinuousConnection"; "ContinuousConnectionInstance"; "ContinuousConnectionInstanceW"; "Input"; "InputW"]
+  && forallb (fun c => existsb (fun x => String.eqb (fst (fst x)) c && String.eqb (snd (fst x)) "pure:exportHdf5") (g_frame g))
+       ["Population"; "Projection"; "ElectricalProjection"; "ContinuousProjection"; "InputList"].
+Definition failing_frame (g : h5gen) : list (string * string) := map (fun x => fst x) (filter (fun x => negb (snd x)) (g_frame g)).
 Definition failing_select (g : h5gen) : list (string * string * list (option string)) :=
   map (fun p => (sp_kind p, sp_off p, sp_names p)) (filter (fun p => negb (selprobe_ok g p)) (g_select g)).
